@@ -1,4 +1,5 @@
 import Tapeverif.Lemmas.RunInstr
+import Tapeverif.Props.C04
 /-! # C14 — delegation: certificate serialisation round-trips for every field value -/
 namespace TV.C14
 
@@ -343,5 +344,396 @@ theorem delegateKeyLock_accepts_cert (cfg : Cfg) (hno : cfg.sigExts = []) (root 
     (by rw [hs]; rfl) hr ht hthr hsz hroom
   rw [hnb, hne] at this
   exact this
+
+/-! ### the chain lock, one level at a time -/
+
+/-- the decision at the end of one chain level: `if ( @c and ) { @d call d0 } else { @d check_sig <flags> }` -/
+def chainDecide (flags : Nat) : Bytes :=
+  readCache "c" ++ (opc 88 ++ ifElse (readCache "d" ++ CALL 0) (readCache "d" ++ CHECK_SIG flags))
+
+/-- the body of `def 0` of `make_delegate_key_chain_lock`, instruction by instruction -/
+def chainBodySeq (flags : Nat) : Bytes :=
+  writeCache "r" 1 ++ (Tools.pushInt 41 ++ (SPLIT ++ (writeCache "s" 1 ++ (DUP ++ (Tools.pushInt 40 ++ (SPLIT ++ (writeCache "c" 1 ++
+  (Tools.pushInt 36 ++ (SPLIT ++ (writeCache "e" 1 ++ (Tools.pushInt 32 ++ (SPLIT ++ (writeCache "b" 1 ++
+  (writeCache "d" 1 ++ (readCache "b" ++ (opc CTSV ++ (readCache "e" ++ (opc CTS ++ (opc NOT ++ (opc VERIFY ++
+  (readCache "s" ++ (SWAP2 ++ (readCache "r" ++ (CSS ++ (opc VERIFY ++ chainDecide flags)))))))))))))))))))))))))
+
+theorem chainLock_bytes (root : Bytes) (flags : Nat) :
+    delegateKeyChainLock root flags = defOp 0 (chainBodySeq flags) ++ (pushB root ++ CALL 0) := by
+  unfold delegateKeyChainLock chainBodySeq chainDecide certChecks
+  generalize Tools.pushInt 41 = p41
+  generalize Tools.pushInt 40 = p40
+  generalize Tools.pushInt 36 = p36
+  generalize Tools.pushInt 32 = p32
+  generalize pushB root = pr
+  simp only [↓reduceIte, List.append_assoc]
+
+/-- the checks one chain level makes on its certificate, under the authorizing key `auth` -/
+def levelChecks (cfg : Cfg) (auth dk b4 e4 csig : Bytes) (m : UInt8) (t thr : Int) : Prop :=
+  C16.tsAccept t cfg.now thr b4 = true ∧ C16.tsAccept t cfg.now thr e4 = false ∧
+    Sodium.verify H C auth (dk ++ b4 ++ e4 ++ [m]) csig = true
+
+instance (cfg : Cfg) (auth dk b4 e4 csig : Bytes) (m : UInt8) (t thr : Int) :
+    Decidable (levelChecks H C cfg auth dk b4 e4 csig m t thr) := by unfold levelChecks; infer_instance
+
+/-- the cache after a level has taken its certificate apart -/
+def levelCache (cache : List (CKey × CVal)) (auth dk b4 e4 csig : Bytes) (m : UInt8) : List (CKey × CVal) :=
+  (CKey.byt (asciiBytes "d"), CVal.list [Atom.bytes dk]) :: (CKey.byt (asciiBytes "b"), CVal.list [Atom.bytes b4]) ::
+  (CKey.byt (asciiBytes "e"), CVal.list [Atom.bytes e4]) :: (CKey.byt (asciiBytes "c"), CVal.list [Atom.bytes [m]]) ::
+  (CKey.byt (asciiBytes "s"), CVal.list [Atom.bytes csig]) :: (CKey.byt (asciiBytes "r"), CVal.list [Atom.bytes auth]) :: cache
+
+set_option maxHeartbeats 3200000 in
+/-- **C14, one level of the chain lock.** In *any* activation of the lock's function (any frame
+    whose tape is the function body), from a stack `auth :: cert :: rest0`: the level ends in an
+    error unless the certificate is inside its window (`t` accepted against begin, not against
+    end) and is signed by the authorizing key `auth` over (delegate ‖ begin ‖ end ‖ may); if it
+    is, the run continues at the decision `if ( @c and ) …` with the certificate removed from the
+    stack and its parts in the cache — whatever `Q` that continuation guarantees. -/
+theorem chainLevel_run (cfg : Cfg) (auth dk b4 e4 csig : Bytes) (m : UInt8) (flags : Nat)
+    (rest0 : List Bytes) (sh : Shared) (fr : Frame) (t thr : Int) (Q : Res → Prop)
+    (hfrest : fr.rest = chainBodySeq flags) (hcap : fr.len0 < fr.cap)
+    (hauth : auth.length = 32) (hdk : dk.length = 32) (hb4 : b4.length = 4) (he4 : e4.length = 4) (hcs : csig.length = 64)
+    (hs : sh.stack = auth :: (dk ++ b4 ++ e4 ++ [m] ++ csig) :: rest0) (hr : sh.returned = false)
+    (ht : lookupC C16.tsKey sh.cache = some (.atom (.int t))) (hthr : cfg.tsThreshold = some thr)
+    (hsz : 105 ≤ cfg.lim.maxItemSize) (hroom : rest0.length + 5 ≤ cfg.lim.maxItems)
+    (hQ : levelChecks H C cfg auth dk b4 e4 csig m t thr →
+      Ends (instrTable H C cfg) cfg.lim { fr with rest := chainDecide flags }
+        { sh with stack := rest0, cache := levelCache sh.cache auth dk b4 e4 csig m } Q) :
+    Ends (instrTable H C cfg) cfg.lim fr sh
+      (fun r => (levelChecks H C cfg auth dk b4 e4 csig m t thr → Q r) ∧
+                (¬ levelChecks H C cfg auth dk b4 e4 csig m t thr → ∃ s, r = .err (.user .see) s)) := by
+  rw [show fr = { fr with rest := chainBodySeq flags } by cases fr; simp_all]
+  unfold chainBodySeq
+  have h41 : Tools.pushInt 41 = pushB [41] := by decide
+  have h40 : Tools.pushInt 40 = pushB [40] := by decide
+  have h36 : Tools.pushInt 36 = pushB [36] := by decide
+  have h32 : Tools.pushInt 32 = pushB [32] := by decide
+  rw [h41, h40, h36, h32]
+  generalize hp36 : dk ++ b4 = p36 at *
+  generalize hp40 : p36 ++ e4 = p40 at *
+  generalize hpre : p40 ++ [m] = pre at *
+  have l36 : p36.length = 36 := by subst hp36; simp [hdk, hb4]
+  have l40 : p40.length = 40 := by subst hp40; simp [l36, he4]
+  have l41 : pre.length = 41 := by subst hpre; simp [l40]
+  have lcert : (pre ++ csig).length = 105 := by simp [l41, hcs]
+  -- r := auth
+  refine Ends.step (fun r h => run_writeCache1 H C cfg _ sh _ (asciiBytes "r") auth ((pre ++ csig) :: rest0) r rfl (by decide) (by decide) hcap hr hs h) ?_
+  dsimp only
+  refine Ends.step (fun r h => run_pushB H C cfg _ _ [41] _ r (by decide) (by decide) rfl hcap hr (by simp; omega) (by simp; omega) h) ?_
+  dsimp only
+  refine Ends.step (fun r h => run_split H C cfg _ _ _ 41 [41] (pre ++ csig) rest0 r rfl hcap hr rfl (by decide) (by omega) (by omega) (by omega) h) ?_
+  dsimp only
+  rw [take_append_len _ _ _ l41, drop_append_len _ _ _ l41]
+  refine Ends.step (fun r h => run_writeCache1 H C cfg _ _ _ (asciiBytes "s") csig (pre :: rest0) r rfl (by decide) (by decide) hcap hr rfl h) ?_
+  dsimp only
+  refine Ends.step (fun r h => run_dup H C cfg _ _ _ pre rest0 r rfl hcap hr rfl (by omega) (by omega) h) ?_
+  dsimp only
+  refine Ends.step (fun r h => run_pushB H C cfg _ _ [40] _ r (by decide) (by decide) rfl hcap hr (by simp; omega) (by simp; omega) h) ?_
+  dsimp only
+  refine Ends.step (fun r h => run_split H C cfg _ _ _ 40 [40] pre (pre :: rest0) r rfl hcap hr rfl (by decide) (by omega) (by omega) (by simp; omega) h) ?_
+  dsimp only
+  rw [← hpre, take_append_len _ _ _ l40, drop_append_len _ _ _ l40, hpre]
+  refine Ends.step (fun r h => run_writeCache1 H C cfg _ _ _ (asciiBytes "c") [m] (p40 :: pre :: rest0) r rfl (by decide) (by decide) hcap hr rfl h) ?_
+  dsimp only
+  refine Ends.step (fun r h => run_pushB H C cfg _ _ [36] _ r (by decide) (by decide) rfl hcap hr (by simp; omega) (by simp; omega) h) ?_
+  dsimp only
+  refine Ends.step (fun r h => run_split H C cfg _ _ _ 36 [36] p40 (pre :: rest0) r rfl hcap hr rfl (by decide) (by omega) (by omega) (by simp; omega) h) ?_
+  dsimp only
+  rw [← hp40, take_append_len _ _ _ l36, drop_append_len _ _ _ l36]
+  refine Ends.step (fun r h => run_writeCache1 H C cfg _ _ _ (asciiBytes "e") e4 (p36 :: pre :: rest0) r rfl (by decide) (by decide) hcap hr rfl h) ?_
+  dsimp only
+  refine Ends.step (fun r h => run_pushB H C cfg _ _ [32] _ r (by decide) (by decide) rfl hcap hr (by simp; omega) (by simp; omega) h) ?_
+  dsimp only
+  refine Ends.step (fun r h => run_split H C cfg _ _ _ 32 [32] p36 (pre :: rest0) r rfl hcap hr rfl (by decide) (by omega) (by omega) (by simp; omega) h) ?_
+  dsimp only
+  rw [← hp36, take_append_len _ _ _ hdk, drop_append_len _ _ _ hdk]
+  refine Ends.step (fun r h => run_writeCache1 H C cfg _ _ _ (asciiBytes "b") b4 (dk :: pre :: rest0) r rfl (by decide) (by decide) hcap hr rfl h) ?_
+  dsimp only
+  refine Ends.step (fun r h => run_writeCache1 H C cfg _ _ _ (asciiBytes "d") dk (pre :: rest0) r rfl (by decide) (by decide) hcap hr rfl h) ?_
+  dsimp only
+  -- the cache now holds d, b, e, c, s, r above the earlier entries
+  have hcache : ((CKey.byt (asciiBytes "d"), CVal.list [Atom.bytes dk]) :: (CKey.byt (asciiBytes "b"), CVal.list [Atom.bytes b4]) ::
+      (CKey.byt (asciiBytes "e"), CVal.list [Atom.bytes e4]) :: (CKey.byt (asciiBytes "c"), CVal.list [Atom.bytes [m]]) ::
+      (CKey.byt (asciiBytes "s"), CVal.list [Atom.bytes csig]) :: (CKey.byt (asciiBytes "r"), CVal.list [Atom.bytes auth]) :: sh.cache)
+      = levelCache sh.cache auth dk b4 e4 csig m := rfl
+  rw [hcache]
+  generalize hcg : levelCache sh.cache auth dk b4 e4 csig m = cache' at *
+  have hts : lookupC C16.tsKey cache' = some (.atom (.int t)) := by
+    subst hcg
+    simp only [levelCache, C16.tsKey, lookupC_str_cons_byt]
+    exact ht
+  have hlb : lookupC (.byt (asciiBytes "b")) cache' = some (.list [.bytes b4]) := by
+    subst hcg
+    unfold levelCache
+    rw [lookupC_byt_cons_ne _ _ _ _ (by decide), lookupC_byt_cons_eq]
+  have hle : lookupC (.byt (asciiBytes "e")) cache' = some (.list [.bytes e4]) := by
+    subst hcg
+    unfold levelCache
+    rw [lookupC_byt_cons_ne _ _ _ _ (by decide), lookupC_byt_cons_ne _ _ _ _ (by decide), lookupC_byt_cons_eq]
+  have hls : lookupC (.byt (asciiBytes "s")) cache' = some (.list [.bytes csig]) := by
+    subst hcg
+    unfold levelCache
+    rw [lookupC_byt_cons_ne _ _ _ _ (by decide), lookupC_byt_cons_ne _ _ _ _ (by decide), lookupC_byt_cons_ne _ _ _ _ (by decide),
+      lookupC_byt_cons_ne _ _ _ _ (by decide), lookupC_byt_cons_eq]
+  have hlr : lookupC (.byt (asciiBytes "r")) cache' = some (.list [.bytes auth]) := by
+    subst hcg
+    unfold levelCache
+    rw [lookupC_byt_cons_ne _ _ _ _ (by decide), lookupC_byt_cons_ne _ _ _ _ (by decide), lookupC_byt_cons_ne _ _ _ _ (by decide),
+      lookupC_byt_cons_ne _ _ _ _ (by decide), lookupC_byt_cons_ne _ _ _ _ (by decide), lookupC_byt_cons_eq]
+  have hb4ne : b4 ≠ [] := by intro h; rw [h] at hb4; simp at hb4
+  have he4ne : e4 ≠ [] := by intro h; rw [h] at he4; simp at he4
+  unfold levelChecks at hQ ⊢
+  rw [hp36, hp40, hpre] at hQ ⊢
+  -- begin
+  refine Ends.step (fun r h => run_readCache1 H C cfg _ _ _ (asciiBytes "b") b4 r rfl (by decide) (by decide) hcap hr hlb (by omega) (by simp; omega) h) ?_
+  dsimp only
+  by_cases hab : C16.tsAccept t cfg.now thr b4 = true
+  case neg =>
+    have hab' : C16.tsAccept t cfg.now thr b4 = false := by simpa using hab
+    exact ⟨_, run_ctsv_fail H C cfg _ _ _ b4 (pre :: rest0) t thr rfl hcap hr rfl hb4ne hts hthr (by omega) (by simp; omega) hab',
+      fun hc => absurd hc.1 hab, fun _ => ⟨_, rfl⟩⟩
+  refine Ends.step (fun r h => run_ctsv_ok H C cfg _ _ _ b4 (pre :: rest0) t thr r rfl hcap hr rfl hb4ne hts hthr (by omega) (by simp; omega) hab h) ?_
+  dsimp only
+  -- end
+  refine Ends.step (fun r h => run_readCache1 H C cfg _ _ _ (asciiBytes "e") e4 r rfl (by decide) (by decide) hcap hr hle (by omega) (by simp; omega) h) ?_
+  dsimp only
+  refine Ends.step (fun r h => run_cts H C cfg _ _ _ e4 (pre :: rest0) t thr r rfl hcap hr rfl he4ne hts hthr (by omega) (by simp; omega) h) ?_
+  dsimp only
+  refine Ends.step (fun r h => run_not H C cfg _ _ _ (boolBytes (C16.tsAccept t cfg.now thr e4)) (pre :: rest0) r rfl hcap hr rfl
+    (by cases C16.tsAccept t cfg.now thr e4 <;> simp [boolBytes] <;> omega) (by simp; omega) h) ?_
+  dsimp only
+  by_cases hae : C16.tsAccept t cfg.now thr e4 = true
+  · exact ⟨_, run_verify_false H C cfg _ _ _ (notBytes (boolBytes (C16.tsAccept t cfg.now thr e4))) (pre :: rest0) rfl hcap hr rfl
+        (by rw [hae]; decide), fun hc => by rw [hae] at hc; exact absurd hc.2.1 (by simp), fun _ => ⟨_, rfl⟩⟩
+  have hae' : C16.tsAccept t cfg.now thr e4 = false := by simpa using hae
+  refine Ends.step (fun r h => run_verify_true H C cfg _ _ _ (notBytes (boolBytes (C16.tsAccept t cfg.now thr e4))) (pre :: rest0) r rfl hcap hr rfl
+    (by rw [hae']; decide) h) ?_
+  dsimp only
+  -- certificate signature under the authorizing key
+  refine Ends.step (fun r h => run_readCache1 H C cfg _ _ _ (asciiBytes "s") csig r rfl (by decide) (by decide) hcap hr hls (by omega) (by simp; omega) h) ?_
+  dsimp only
+  refine Ends.step (fun r h => run_swap2 H C cfg _ _ _ csig pre rest0 r rfl hcap hr rfl (by omega) (by omega) (by omega) h) ?_
+  dsimp only
+  refine Ends.step (fun r h => run_readCache1 H C cfg _ _ _ (asciiBytes "r") auth r rfl (by decide) (by decide) hcap hr hlr (by omega) (by simp; omega) h) ?_
+  dsimp only
+  refine Ends.step (fun r h => run_css H C cfg _ _ _ auth pre csig rest0 r rfl hcap hr rfl hauth hcs (by omega) (by omega) h) ?_
+  dsimp only
+  by_cases hv : Sodium.verify H C auth pre csig = true
+  case neg =>
+    have hv' : Sodium.verify H C auth pre csig = false := by simpa using hv
+    exact ⟨_, run_verify_false H C cfg _ _ _ (boolBytes (Sodium.verify H C auth pre csig)) rest0 rfl hcap hr rfl
+        (by rw [hv']; decide), fun hc => absurd hc.2.2 hv, fun _ => ⟨_, rfl⟩⟩
+  refine Ends.step (fun r h => run_verify_true H C cfg _ _ _ (boolBytes (Sodium.verify H C auth pre csig)) rest0 r rfl hcap hr rfl
+    (by rw [hv]; decide) h) ?_
+  dsimp only
+  obtain ⟨r, hrun, hq⟩ := hQ ⟨hab, hae', hv⟩
+  exact ⟨r, hrun, fun _ => hq, fun hn => absurd ⟨hab, hae', hv⟩ hn⟩
+
+set_option maxHeartbeats 1600000 in
+/-- **the decision, final link.** The item after the certificate ANDed with the may-delegate byte
+    is false (the witness's `false` marker, or a certificate that does not permit delegation):
+    the level ends with exactly the C02 verdict of the next item as a signature under this
+    certificate's delegate key. -/
+theorem chainDecide_final (cfg : Cfg) (hno : cfg.sigExts = []) (dk marker sig : Bytes) (m : UInt8) (flags : Nat)
+    (st : List Bytes) (sh : Shared) (fr : Frame)
+    (hfrest : fr.rest = chainDecide flags) (hcap : fr.len0 < fr.cap) (hlen : (chainDecide flags).length ≤ fr.len0)
+    (hdk : dk.length = 32) (hfl : flags < 256) (hmk : marker.length ≤ cfg.lim.maxItemSize)
+    (hs : sh.stack = marker :: sig :: st) (hr : sh.returned = false)
+    (hlc : lookupC (.byt (asciiBytes "c")) sh.cache = some (.list [.bytes [m]]))
+    (hld : lookupC (.byt (asciiBytes "d")) sh.cache = some (.list [.bytes dk]))
+    (hfalse : truthy (andBytes [m] marker) = false)
+    (hsz : 32 ≤ cfg.lim.maxItemSize) (hroom : st.length + 3 ≤ cfg.lim.maxItems) :
+    Ends (instrTable H C cfg) cfg.lim fr sh
+      (fun r => Res.summary r = (match SigPure.checkSig H C cfg.lim.maxItemSize sh.cache flags sig dk with
+          | .ok b => .ok (boolBytes b :: st)
+          | .error e => .error (.user e))) := by
+  rw [show fr = { fr with rest := chainDecide flags } by cases fr; simp_all]
+  unfold chainDecide
+  have hlb : (readCache "d" ++ CHECK_SIG flags).length = 5 := by simp [readCache, CHECK_SIG, opc]; decide
+  have hla : (readCache "d" ++ CALL 0).length = 5 := by decide
+  have hl : 5 < fr.len0 := by
+    have : (chainDecide flags).length ≥ 6 := by simp [chainDecide, ifElse, readCache, opc, hla, hlb]; omega
+    omega
+  have hand : (andBytes [m] marker).length ≤ cfg.lim.maxItemSize := by
+    unfold andBytes
+    rw [TV.C04.zipWithPad_length]
+    simp; omega
+  refine Ends.step (fun r h => run_readCache1 H C cfg _ sh _ (asciiBytes "c") [m] r rfl (by decide) (by decide) hcap hr hlc (by simp; omega) (by rw [hs]; simp; omega) h) ?_
+  dsimp only
+  refine Ends.step (fun r h => run_and H C cfg _ _ _ [m] marker (sig :: st) r rfl hcap hr (by rw [hs]) hand (by simp; omega) h) ?_
+  dsimp only
+  cases hspec : SigPure.checkSig H C cfg.lim.maxItemSize sh.cache flags sig dk with
+  | error e =>
+    refine ⟨_, run_ifelse_err H C cfg _ _ _ _ (readCache "d" ++ CALL 0) (readCache "d" ++ CHECK_SIG flags) (andBytes [m] marker) (sig :: st) (.user e) rfl (by omega) (by omega) hcap hr rfl (by simp)
+      (by
+        rw [hfalse]
+        simp only [Bool.false_eq_true, ↓reduceIte]
+        refine run_readCache1 H C cfg _ _ (CHECK_SIG flags) (asciiBytes "d") dk _ rfl (by decide) (by decide)
+          (by simp [inlineFrame, hlb]; omega) (by simp [copyDict, hr]) (by simpa [copyDict] using hld) (by omega) (by simp [copyDict]; omega) ?_
+        try dsimp only
+        have := run_checksig_last H C cfg hno
+          { (inlineFrame (readCache "d" ++ CHECK_SIG flags) { fr with rest := [] } { sh with stack := sig :: st }) with rest := CHECK_SIG flags }
+          { (copyDict { sh with stack := sig :: st } fr.dict).2 with stack := dk :: sig :: st }
+          flags dk sig st rfl hfl (by simp [inlineFrame, hlb]; omega) (by simp [copyDict, hr]) rfl (by omega) (by omega)
+        simp only [copyDict] at this ⊢
+        rw [hspec] at this
+        exact this), rfl⟩
+  | ok b =>
+    refine Ends.step (fun r h => run_ifelse_ok H C cfg _ _ _ _ _ (readCache "d" ++ CALL 0) (readCache "d" ++ CHECK_SIG flags) (andBytes [m] marker) (sig :: st) r rfl (by omega) (by omega) hcap hr rfl
+      (by
+        rw [hfalse]
+        simp only [Bool.false_eq_true, ↓reduceIte]
+        refine run_readCache1 H C cfg _ _ (CHECK_SIG flags) (asciiBytes "d") dk _ rfl (by decide) (by decide)
+          (by simp [inlineFrame, hlb]; omega) (by simp [copyDict, hr]) (by simpa [copyDict] using hld) (by omega) (by simp [copyDict]; omega) ?_
+        try dsimp only
+        have := run_checksig_last H C cfg hno
+          { (inlineFrame (readCache "d" ++ CHECK_SIG flags) { fr with rest := [] } { sh with stack := sig :: st }) with rest := CHECK_SIG flags }
+          { (copyDict { sh with stack := sig :: st } fr.dict).2 with stack := dk :: sig :: st }
+          flags dk sig st rfl hfl (by simp [inlineFrame, hlb]; omega) (by simp [copyDict, hr]) rfl (by omega) (by omega)
+        simp only [copyDict] at this ⊢
+        rw [hspec] at this
+        exact this)
+      (by simp [hr]) h) ?_
+    dsimp only
+    exact ⟨_, TSteps.nil rfl, rfl⟩
+
+set_option maxHeartbeats 1600000 in
+/-- **the decision, non-final link.** The may-delegate byte ANDed with the next item is true (a
+    delegable certificate followed by the witness's `true` marker): the level consumes the marker,
+    puts this certificate's delegate key on the stack and executes `CALL 0` — the next level runs
+    with the delegate key as its authorizing key — and ends as that call does. -/
+theorem chainDecide_recurse (cfg : Cfg) (dk marker : Bytes) (m : UInt8) (flags : Nat)
+    (rest1 : List Bytes) (sh : Shared) (fr : Frame) (rB : Res)
+    (hfrest : fr.rest = chainDecide flags) (hcap : fr.len0 < fr.cap) (hlen : (chainDecide flags).length ≤ fr.len0)
+    (hdk : dk.length = 32) (hmk : marker.length ≤ cfg.lim.maxItemSize)
+    (hs : sh.stack = marker :: rest1) (hr : sh.returned = false)
+    (hlc : lookupC (.byt (asciiBytes "c")) sh.cache = some (.list [.bytes [m]]))
+    (hld : lookupC (.byt (asciiBytes "d")) sh.cache = some (.list [.bytes dk]))
+    (htrue : truthy (andBytes [m] marker) = true)
+    (hsz : 32 ≤ cfg.lim.maxItemSize) (hroom : rest1.length + 2 ≤ cfg.lim.maxItems)
+    (hB : TSteps (instrTable H C cfg) cfg.lim
+        { (inlineFrame (readCache "d" ++ CALL 0) { fr with rest := [] } { sh with stack := rest1 }) with rest := CALL 0 }
+        { (copyDict { sh with stack := rest1 } fr.dict).2 with stack := dk :: rest1 } rB) :
+    TSteps (instrTable H C cfg) cfg.lim fr sh (wrapInline { fr with rest := [] } rB) := by
+  rw [show fr = { fr with rest := chainDecide flags } by cases fr; simp_all]
+  unfold chainDecide
+  have hla : (readCache "d" ++ CALL 0).length = 5 := by decide
+  have hlb : (readCache "d" ++ CHECK_SIG flags).length = 5 := by simp [readCache, CHECK_SIG, opc]; decide
+  have hl : 5 < fr.len0 := by
+    have : (chainDecide flags).length ≥ 6 := by simp [chainDecide, ifElse, readCache, opc]; omega
+    omega
+  have hand : (andBytes [m] marker).length ≤ cfg.lim.maxItemSize := by
+    unfold andBytes
+    rw [TV.C04.zipWithPad_length]
+    simp; omega
+  refine run_readCache1 H C cfg _ sh _ (asciiBytes "c") [m] _ rfl (by decide) (by decide) hcap hr hlc (by simp; omega) (by rw [hs]; simp; omega) ?_
+  dsimp only
+  refine run_and H C cfg _ _ _ [m] marker rest1 _ rfl hcap hr (by rw [hs]) hand (by omega) ?_
+  dsimp only
+  refine run_ifelse_last H C cfg _ _ (readCache "d" ++ CALL 0) (readCache "d" ++ CHECK_SIG flags) (andBytes [m] marker) rest1 rB rfl (by omega) (by omega) hcap hr rfl ?_
+  rw [htrue]
+  simp only [↓reduceIte]
+  refine run_readCache1 H C cfg _ _ (CALL 0) (asciiBytes "d") dk _ rfl (by decide) (by decide)
+    (by simp [inlineFrame, hla]; omega) (by simp [copyDict, hr]) (by simpa [copyDict] using hld) (by omega) (by simp [copyDict]; omega) ?_
+  exact hB
+
+theorem levelCache_c (cache : List (CKey × CVal)) (auth dk b4 e4 csig : Bytes) (m : UInt8) :
+    lookupC (.byt (asciiBytes "c")) (levelCache cache auth dk b4 e4 csig m) = some (.list [.bytes [m]]) := by
+  unfold levelCache
+  rw [lookupC_byt_cons_ne _ _ _ _ (by decide), lookupC_byt_cons_ne _ _ _ _ (by decide), lookupC_byt_cons_ne _ _ _ _ (by decide), lookupC_byt_cons_eq]
+
+theorem levelCache_d (cache : List (CKey × CVal)) (auth dk b4 e4 csig : Bytes) (m : UInt8) :
+    lookupC (.byt (asciiBytes "d")) (levelCache cache auth dk b4 e4 csig m) = some (.list [.bytes dk]) := by
+  unfold levelCache
+  rw [lookupC_byt_cons_eq]
+
+theorem levelCache_ts (cache : List (CKey × CVal)) (auth dk b4 e4 csig : Bytes) (m : UInt8) :
+    lookupC C16.tsKey (levelCache cache auth dk b4 e4 csig m) = lookupC C16.tsKey cache := by
+  simp only [levelCache, C16.tsKey, lookupC_str_cons_byt]
+
+theorem levelCache_checkSig (mis : Nat) (cache : List (CKey × CVal)) (auth dk b4 e4 csig : Bytes) (m : UInt8) (a : Nat) (s v : Bytes) :
+    SigPure.checkSig H C mis (levelCache cache auth dk b4 e4 csig m) a s v = SigPure.checkSig H C mis cache a s v := by
+  simp only [levelCache, checkSig_cons_byt]
+
+/-- **C14, the last link of a chain: exact outcome of its level.** In any activation, from a stack
+    `auth :: cert :: marker :: sig :: st` where the marker ANDed with the may-delegate byte is
+    false: an error unless the certificate is inside its window and signed by `auth`; then exactly
+    the C02 verdict of `sig` under the certificate's delegate key. -/
+theorem chainLevel_final (cfg : Cfg) (hno : cfg.sigExts = []) (auth dk b4 e4 csig marker sig : Bytes) (m : UInt8) (flags : Nat)
+    (st : List Bytes) (sh : Shared) (fr : Frame) (t thr : Int)
+    (hfrest : fr.rest = chainBodySeq flags) (hcap : fr.len0 < fr.cap) (hlen : (chainBodySeq flags).length ≤ fr.len0)
+    (hauth : auth.length = 32) (hdk : dk.length = 32) (hb4 : b4.length = 4) (he4 : e4.length = 4) (hcs : csig.length = 64)
+    (hfl : flags < 256) (hmk : marker.length ≤ cfg.lim.maxItemSize)
+    (hs : sh.stack = auth :: (dk ++ b4 ++ e4 ++ [m] ++ csig) :: marker :: sig :: st) (hr : sh.returned = false)
+    (ht : lookupC C16.tsKey sh.cache = some (.atom (.int t))) (hthr : cfg.tsThreshold = some thr)
+    (hfalse : truthy (andBytes [m] marker) = false)
+    (hsz : 105 ≤ cfg.lim.maxItemSize) (hroom : st.length + 7 ≤ cfg.lim.maxItems) :
+    Ends (instrTable H C cfg) cfg.lim fr sh
+      (fun r => Res.summary r =
+        (if levelChecks H C cfg auth dk b4 e4 csig m t thr then
+          (match SigPure.checkSig H C cfg.lim.maxItemSize sh.cache flags sig dk with
+           | .ok b => .ok (boolBytes b :: st)
+           | .error e => .error (.user e))
+         else .error (.user .see))) := by
+  have hdl : (chainDecide flags).length ≤ fr.len0 := by
+    have : (chainBodySeq flags).length ≥ (chainDecide flags).length := by
+      unfold chainBodySeq
+      simp only [List.length_append]
+      omega
+    omega
+  obtain ⟨r, hrun, hpass, hfail⟩ := chainLevel_run H C cfg auth dk b4 e4 csig m flags (marker :: sig :: st) sh fr t thr
+    (fun r => Res.summary r = (match SigPure.checkSig H C cfg.lim.maxItemSize sh.cache flags sig dk with
+           | .ok b => .ok (boolBytes b :: st)
+           | .error e => .error (.user e)))
+    hfrest hcap hauth hdk hb4 he4 hcs hs hr ht hthr hsz (by simp; omega)
+    (fun _ => by
+      have := chainDecide_final H C cfg hno dk marker sig m flags st
+        { sh with stack := marker :: sig :: st, cache := levelCache sh.cache auth dk b4 e4 csig m }
+        { fr with rest := chainDecide flags } rfl hcap hdl hdk hfl hmk rfl hr
+        (levelCache_c _ _ _ _ _ _ _) (levelCache_d _ _ _ _ _ _ _) hfalse (by omega) (by omega)
+      simp only [levelCache_checkSig] at this
+      exact this)
+  refine ⟨r, hrun, ?_⟩
+  by_cases hc : levelChecks H C cfg auth dk b4 e4 csig m t thr
+  · rw [if_pos hc]; exact hpass hc
+  · rw [if_neg hc]
+    obtain ⟨s, hs'⟩ := hfail hc
+    rw [hs']; rfl
+
+/-- **C14, a non-final link: exact outcome of its level.** From a stack
+    `auth :: cert :: marker :: rest1` where the marker ANDed with the may-delegate byte is true:
+    an error unless the certificate is inside its window and signed by `auth`; then the level is
+    exactly `CALL 0` on the stack `delegate :: rest1` — the next level, authorized by this
+    certificate's delegate key — and ends as that call does (`rB`). A certificate that does not
+    permit delegation (may-delegate byte 00) never reaches this case: it falls to
+    `chainLevel_final`, where the next certificate is not a valid signature. -/
+theorem chainLevel_delegates (cfg : Cfg) (auth dk b4 e4 csig marker : Bytes) (m : UInt8) (flags : Nat)
+    (rest1 : List Bytes) (sh : Shared) (fr : Frame) (t thr : Int) (rB : Res)
+    (hfrest : fr.rest = chainBodySeq flags) (hcap : fr.len0 < fr.cap) (hlen : (chainBodySeq flags).length ≤ fr.len0)
+    (hauth : auth.length = 32) (hdk : dk.length = 32) (hb4 : b4.length = 4) (he4 : e4.length = 4) (hcs : csig.length = 64)
+    (hmk : marker.length ≤ cfg.lim.maxItemSize)
+    (hs : sh.stack = auth :: (dk ++ b4 ++ e4 ++ [m] ++ csig) :: marker :: rest1) (hr : sh.returned = false)
+    (ht : lookupC C16.tsKey sh.cache = some (.atom (.int t))) (hthr : cfg.tsThreshold = some thr)
+    (htrue : truthy (andBytes [m] marker) = true)
+    (hsz : 105 ≤ cfg.lim.maxItemSize) (hroom : rest1.length + 6 ≤ cfg.lim.maxItems)
+    (hB : TSteps (instrTable H C cfg) cfg.lim
+        { (inlineFrame (readCache "d" ++ CALL 0) { fr with rest := [] }
+            { sh with stack := rest1, cache := levelCache sh.cache auth dk b4 e4 csig m }) with rest := CALL 0 }
+        { (copyDict { sh with stack := rest1, cache := levelCache sh.cache auth dk b4 e4 csig m } fr.dict).2 with stack := dk :: rest1 } rB) :
+    Ends (instrTable H C cfg) cfg.lim fr sh
+      (fun r => (levelChecks H C cfg auth dk b4 e4 csig m t thr → r = wrapInline { fr with rest := [] } rB) ∧
+                (¬ levelChecks H C cfg auth dk b4 e4 csig m t thr → ∃ s, r = .err (.user .see) s)) := by
+  have hdl : (chainDecide flags).length ≤ fr.len0 := by
+    have : (chainBodySeq flags).length ≥ (chainDecide flags).length := by
+      unfold chainBodySeq
+      simp only [List.length_append]
+      omega
+    omega
+  exact chainLevel_run H C cfg auth dk b4 e4 csig m flags (marker :: rest1) sh fr t thr _
+    hfrest hcap hauth hdk hb4 he4 hcs hs hr ht hthr hsz (by simp; omega)
+    (fun _ => ⟨_, chainDecide_recurse H C cfg dk marker m flags rest1
+        { sh with stack := marker :: rest1, cache := levelCache sh.cache auth dk b4 e4 csig m }
+        { fr with rest := chainDecide flags } rB rfl hcap hdl hdk hmk rfl hr
+        (levelCache_c _ _ _ _ _ _ _) (levelCache_d _ _ _ _ _ _ _) htrue (by omega) (by omega) hB, rfl⟩)
 
 end TV.C14
